@@ -143,7 +143,7 @@ impl Property for C18 {
         let exprs = expr_options(&case.opts);
         let kind: &str;
         // choose a corruption; fall back to one that is always possible
-        let choice = rng.below(32);
+        let choice = rng.below(34);
         let fresh_position = |rng: &mut Rng, expr: &str| -> Vec<String> {
             match rng.below(6) {
                 0 => vec![format!("--filter={expr}")],
@@ -378,6 +378,30 @@ impl Property for C18 {
                 needs.push(o.last().unwrap().clone());
                 replace_or_add(&mut case, o);
                 kind = "overflowing-index";
+            }
+            32 | 33 => {
+                // a plain --set whose value yields nothing where no input exists yet (the
+                // pinned tree: "Empty value in ..."): a member of the input, an input-context
+                // selector, an undefined variable - whatever else the configuration enables
+                let v = *rng.pick(&[
+                    ".a",
+                    "&index",
+                    "&index-in-file",
+                    "(+ &started-at-line-number 1)",
+                    ":zz_undefined",
+                    "#0",
+                    "&file-name",
+                    "(get . \"a\")",
+                    "&ended-at-char-number",
+                    "(stringify &index)",
+                ]);
+                let o = vec!["--set".to_string(), format!("ev{}={v}", rng.below(10))];
+                needs.push(o[1].clone());
+                case.opts.push(o);
+                if rng.chance(1, 2) && !has_opt(&case.opts, "--regular-expression-cache-size") {
+                    case.opts.push(vec![format!("--regular-expression-cache-size={}", rng.range(1, 8))]);
+                }
+                kind = "empty-set-value";
             }
             16 if !exprs.is_empty() => {
                 // truncation to nothing: the expression is cut to length zero
